@@ -7,7 +7,9 @@ rows = []
 for d in sorted(glob.glob(os.path.join(ROOT, "seeded", "C*-*"))):
     sid = os.path.basename(d)
     notes = open(os.path.join(d, "NOTES.md")).read() if os.path.exists(os.path.join(d, "NOTES.md")) else ""
-    n = sid.split("-")[1]
+    # ids 1,2 come from the first round of sub-agents, 3,4 from the second; each round's NOTES.md
+    # speaks of "mutation 1" and "mutation 2"
+    n = str((int(sid.split("-")[1]) - 1) % 2 + 1)
     # the section of NOTES.md about this mutation
     parts = re.split(r"(?im)^#+\s*mutation\s*", notes)
     sec = next((p for p in parts if p.strip().startswith(n)), notes)[:1500]
@@ -16,7 +18,7 @@ for d in sorted(glob.glob(os.path.join(ROOT, "seeded", "C*-*"))):
     meta = {
         "id": sid,
         "breaks_property": sid.split("-")[0],
-        "origin": "written by an independent sub-agent that saw only the property text and a scratch worktree of /repo",
+        "origin": "round %d; written by an independent sub-agent that saw only the property text and a scratch worktree of /repo" % ((int(sid.split("-")[1]) - 1) // 2 + 1),
         "files_changed": files,
         "what_it_needs_to_manifest": " ".join(sec.split())[:900],
         "confirmed_by": "tools/seeded_confirm.sh: patch applies to /repo HEAD; `cargo test --offline` passes with it; demo.rs (as tests/seeded_demo.rs) fails with it and passes without it",
